@@ -39,6 +39,19 @@ claim("C08",
       "All loops over 16 iterable kinds at every length 0..3/4 with every body sequence of <=3/4 statements from 16 items (emits, conditional/bare break and continue, emit-then-break, return, let, inner loops with their own control flow, fn literal), 2 tag layouts, 4 placements, compared with a reference interpreter; maps are checked order-independently and additionally under every forced rotation of Go's map iteration order (runtime overlay hook); control-free bodies by unrolling. nil / non-iterable operands and break/continue at nesting depth 1..4.",
       EXEC_NOTE + " Map iteration order is controlled through an overlay of runtime/map.go (go1.23).", "bounded exhaustive enumeration of loop programs on the real code vs. a reference interpreter; environment-answer enumeration for map order", "DESIGN.md §4 C08")
 
+claim("C09",
+      "All nestings (depth <=2 with all action subsets, depth 3 reduced / complete in thorough) of 11 scope constructs (for over slice/Iterator/map, user-function call, partial with data, contentFor+contentOf with data, contentOf default block, BlockWith(child) helper, Block() helper, if, contentFor defined at top level and used inside) with every subset of {let fresh, shadowing let, assignment} per level and probes of every name at the end of each body, after each construct and at the end; compared with an environment-chain reference model. Scope handling is re-implemented per construct, so every construct pair/triple is enumerated.",
+      EXEC_NOTE, "bounded exhaustive enumeration of nested scope programs on the real evaluator vs. an environment-chain reference model", "DESIGN.md §4 C09")
+claim("C10",
+      "Explicit-state breadth-first search over histories of root constructor (4 variants) / New / Set on up to 4 contexts, keys {a, b, len (a built-in helper name)}, values {1, 2, nil}, to depth 6 (quick) / 8 (thorough): every transition calls the real API on fresh objects (history replay), states are deduplicated on the reference model's state, and in every state the full observation vector (Value and Has of every context x key) is compared with the model. Aliasing and shadowing bugs need particular write orders on parents and children; BFS reaches all of them within the bound.",
+      EXEC_NOTE + " State merging is sound because two histories with the same model state have the same futures under the model and the implementation's observable state was just checked to equal it.", "explicit-state BFS over operation histories on the real objects with a reference model (state = model state, invariant = full observation vector)", "DESIGN.md §4 C10")
+claim("C11",
+      "Every walk of <=5 (6 thorough) steps (field, index, map key, method call) through a depth-3 data graph whose leaf strings spell their own Go path, from 7 roots incl. roots and index variables named like fields, with 4 index spellings, used in an output tag, through let and as loop iterable; expected value computed by Go reflection navigation; plus every walk prefix extended by one uncompletable step. Oracle: exactly the leaf or an error, never another value; uncompletable: error or empty, never a leaf or panic.",
+      EXEC_NOTE + " A completable path that fails with an error is accepted (the property's 'or fails'); the evidence counts how many completable paths yield their value.", "bounded exhaustive enumeration of access paths over a self-describing data graph on the real evaluator vs. reflection navigation", "DESIGN.md §4 C11")
+claim("C12",
+      "Every signature of a family built with reflect.FuncOf/MakeFunc (0..2/3 fixed parameters over 5 types x 10 tails incl. options map / helper context in both typings / 3 variadic tails x 6 result shapes) x every argument list of length 0..3/4 over 8 values (incl. nil, typed nil pointer) with logging wrappers, with and without a block; compared with a reference binder (who is invoked, with which values, argument evaluation log, auto-supplied map/context carrying the block, result and error handling).",
+      EXEC_NOTE + " Omitted ordinary (non map/context) parameters are treated as unspecified.", "bounded exhaustive enumeration of (signature x call shape) on the real call binder vs. a reference binder, with recording helpers", "DESIGN.md §4 C12")
+
 def main():
     repo_head = subprocess.run(["git", "-C", "/repo", "log", "--format=%H %s"], capture_output=True, text=True).stdout.strip().split("\n")
     hook_commits = [l.split()[0] for l in repo_head if " verif:" in l]
